@@ -58,17 +58,18 @@ type tpFlow struct {
 }
 
 type tpAct struct {
-	kind    string // init poll uservisit approve abort
-	good    bool
-	tid     int    // pool token id (good) or bad-ticket kind
-	raw     []byte // ticket bytes
-	badJSON bool
-	mode    string // immediate poll user refuse none
-	cs      []int
-	status  int
-	msg     int
-	role    string // approve/abort: poll|user
-	secret  string
+	kind     string // init poll uservisit approve abort
+	good     bool
+	tid      int    // pool token id (good) or bad-ticket kind
+	raw      []byte // ticket bytes
+	badJSON  bool
+	noMember bool   // a JSON body without a ticket member: the same as an empty ticket
+	mode     string // immediate poll user refuse none
+	cs       []int
+	status   int
+	msg      int
+	role     string // approve/abort: poll|user
+	secret   string
 }
 
 type tpThread struct {
@@ -100,7 +101,8 @@ type tpWorld struct {
 	oplog   []string
 	inits   int
 	conc    bool
-	planned int // inits that will insert
+	planned int          // inits that will insert
+	initH   http.Handler // the init middleware is built once per service and reused, as on a real mux
 }
 
 // ---- wrapping store -------------------------------------------------------------------------
@@ -329,7 +331,10 @@ func (w *tpWorld) mux(rw http.ResponseWriter, r *http.Request) {
 	path := r.URL.EscapedPath()
 	switch {
 	case path == tp.InitPath:
-		w.svc.InitRequestMiddleware(http.HandlerFunc(w.handleInit)).ServeHTTP(rw, r)
+		if w.initH == nil {
+			w.initH = w.svc.InitRequestMiddleware(http.HandlerFunc(w.handleInit))
+		}
+		w.initH.ServeHTTP(rw, r)
 	case strings.HasPrefix(path, tp.PollPathPrefix):
 		w.svc.HandlePollRequest(rw, r)
 	case strings.HasPrefix(path, tpUserPfx):
@@ -467,6 +472,8 @@ func (w *tpWorld) runAct(th *tpThread) string {
 		var body []byte
 		if a.badJSON {
 			body = []byte(`{"ticket": 12`)
+		} else if a.noMember {
+			body = []byte(pick(w.r, []string{`{}`, `{"comment": "no ticket here"}`, `{"Ticket2": "AAAA"}`}))
 		} else {
 			body, _ = json.Marshal(map[string][]byte{"ticket": a.raw})
 		}
@@ -630,7 +637,12 @@ func (w *tpWorld) genAct(maxFlows int) *tpAct {
 			w.o.count("ticket.foreign-key")
 		case x < 94:
 			a.tid, a.raw = 3, nil
-			w.o.count("ticket.empty")
+			if r.Bool() {
+				a.noMember = true
+				w.o.count("ticket.no-member")
+			} else {
+				w.o.count("ticket.empty")
+			}
 		case x < 97:
 			a.tid, a.raw = 4, r.Bytes(1+r.Intn(80))
 			w.o.count("ticket.garbage")
